@@ -13,7 +13,12 @@ package executors_test
 // (and sleeps a generated virtual latency). The oracle works on the recorded
 // history only: a logical clock stamps the call and the return of every
 // operation and the start and the end of every callback.
-
+//
+// Three rules share the case type, the history and the oracle:
+//   exec-random      rapid cases, one synctest bubble per case, one P
+//   exec-small-scope exhaustive enumeration of small timelines, same interpreter
+//   exec-parallel    rapid cases on the real clock with real parallelism (the
+//                    unit is built with -race), zero delays
 import (
 	"bytes"
 	"fmt"
@@ -53,13 +58,26 @@ type c16Ev struct {
 type c16Case struct {
 	Kind string  `json:"kind"` // bulk | chunk | periodical
 	Max  int     `json:"max"`  // bulk: task count; chunk: byte limit; periodical: task count of the custom container (0 = no threshold)
-	IvMs int     `json:"iv"`   // flush interval in milliseconds (even)
+	IvMs int     `json:"iv"`   // flush interval in milliseconds
 	Ev   []c16Ev `json:"ev"`
 	Lat  []int   `json:"lat,omitempty"` // latency (half intervals) of the k-th callback, cyclic
+	// Q: before the final Wait the root stays passive for a few intervals and then
+	// requires every task to be executed already (tick trigger alone must do it).
+	// exec-parallel: the case checks that the flusher goroutine is gone at the end.
+	Q bool `json:"q,omitempty"`
 }
 
 func (c c16Case) interval() time.Duration { return time.Duration(c.IvMs) * time.Millisecond }
 func (c c16Case) unit() time.Duration     { return c.interval() / 2 }
+func (c c16Case) maxLat() int {
+	m := 0
+	for _, l := range c.Lat {
+		if l > m {
+			m = l
+		}
+	}
+	return m
+}
 
 // ---------------------------------------------------------------- history
 
@@ -67,30 +85,30 @@ type c16Op struct {
 	ev        int // index into case.Ev (-1: final Wait of the root)
 	kind      string
 	g         int
-	call, ret int64 // logical clock, ret == 0: never returned
+	call, ret int64 // logical clock; 0: not called / never returned
 	tcall     time.Duration
 	tret      time.Duration
 }
 
 type c16Batch struct {
 	ids        []int
-	start, end int64 // logical clock, end == 0: callback never finished
+	start, end int64 // logical clock, end == 0: callback not finished
 	tstart     time.Duration
 	tend       time.Duration
 	harness    bool // executed by a harness goroutine (inside its Flush/Wait)
-	alien      string
 }
 
 type c16State struct {
-	mu      sync.Mutex
-	clock   int64
-	ops     []c16Op
-	batches []*c16Batch
-	ncb     int
-	t0      time.Time
-	harness map[uint64]bool // goroutine ids of harness goroutines
-	dead    bool            // case over: later callbacks only counted
-	late    int
+	mu       sync.Mutex
+	clock    int64
+	ops      []c16Op
+	batches  []*c16Batch
+	ncb      int
+	t0       time.Time
+	harness  map[uint64]bool // goroutine ids of harness goroutines
+	dead     bool            // case over: later callbacks are only counted
+	late     int
+	liveFail string
 }
 
 func (s *c16State) tick() int64 { s.clock++; return s.clock }
@@ -124,23 +142,28 @@ func (c *c16Container) RemoveAll() any {
 	return t
 }
 
-// gate: harness-side reader/writer gate (durably blocking, sync.Cond).
-// Flush operations are readers, Wait operations writers. Reason: Wait holds a
-// sync.Mutex (syncx.Barrier) while it blocks on the WaitGroup, and every
-// Flush/Wait first locks that mutex. Blocking on a mutex is not a durable
-// block for synctest, so a Flush issued while a Wait is blocked across virtual
-// time would freeze the bubble's clock (artifact of virtual time, not a
-// defect). The gate never delays Add and never reorders recorded events; the
-// oracle uses the instants at which the calls were really made.
+// c16Gate: harness-side reader/writer gate (durably blocking, sync.Cond), used
+// in bubbles only. Flush operations are readers, Wait operations writers.
+// Reason: Wait holds a sync.Mutex (syncx.Barrier) while it blocks on the
+// WaitGroup, and every Flush/Wait first locks that mutex. Blocking on a mutex
+// is not a durable block for synctest, so a Flush issued by the harness while a
+// Wait is blocked across virtual time would freeze the bubble's clock (an
+// artifact of virtual time, not a defect). The gate never delays Add and the
+// oracle uses the instants at which the calls were really made. Concurrent
+// Flush/Wait/Wait calls are exercised by exec-parallel on the real clock.
 type c16Gate struct {
 	mu sync.Mutex
 	c  *sync.Cond
 	r  int
 	w  bool
+	on bool
 }
 
-func newC16Gate() *c16Gate { g := &c16Gate{}; g.c = sync.NewCond(&g.mu); return g }
+func newC16Gate(on bool) *c16Gate { g := &c16Gate{on: on}; g.c = sync.NewCond(&g.mu); return g }
 func (g *c16Gate) rlock() {
+	if !g.on {
+		return
+	}
 	g.mu.Lock()
 	for g.w {
 		g.c.Wait()
@@ -148,8 +171,19 @@ func (g *c16Gate) rlock() {
 	g.r++
 	g.mu.Unlock()
 }
-func (g *c16Gate) runlock() { g.mu.Lock(); g.r--; g.c.Broadcast(); g.mu.Unlock() }
+func (g *c16Gate) runlock() {
+	if !g.on {
+		return
+	}
+	g.mu.Lock()
+	g.r--
+	g.c.Broadcast()
+	g.mu.Unlock()
+}
 func (g *c16Gate) lock() {
+	if !g.on {
+		return
+	}
 	g.mu.Lock()
 	for g.w || g.r > 0 {
 		g.c.Wait()
@@ -157,7 +191,15 @@ func (g *c16Gate) lock() {
 	g.w = true
 	g.mu.Unlock()
 }
-func (g *c16Gate) unlock() { g.mu.Lock(); g.w = false; g.c.Broadcast(); g.mu.Unlock() }
+func (g *c16Gate) unlock() {
+	if !g.on {
+		return
+	}
+	g.mu.Lock()
+	g.w = false
+	g.c.Broadcast()
+	g.mu.Unlock()
+}
 
 type c16Subject struct {
 	add   func(id, size int)
@@ -186,30 +228,41 @@ func c16New(c c16Case, exec func(ids []int)) c16Subject {
 	}
 }
 
-const c16IdleRounds = 12 // idle period after the final Wait, in intervals (code: quit after > 10 idle rounds)
+const (
+	c16IdleRounds = 12 // idle period after the final Wait, in intervals (the flusher retires after more than 10 idle rounds)
+	c16IdleGap    = 20 // exec-parallel: a gap of this many half intervals or more is an idle phase of the whole case
+)
 
-// c16Run executes the case inside the current bubble and returns the history.
-// fail is set for failures detected while running (virtual horizon exceeded).
-func c16Run(c c16Case, s *c16State) (fail string) {
+// c16Run executes the case (inside the current bubble when par is false, on
+// the real clock with real parallelism when par is true) and records the
+// history. fail is set for failures detected while running.
+func c16Run(c c16Case, s *c16State, par bool) (fail string) {
 	U, I := c.unit(), c.interval()
 	s.t0 = time.Now()
 	s.harness = map[uint64]bool{c16Goid(): true}
 	now := func() time.Duration { return time.Since(s.t0) }
 	exec := func(ids []int) {
+		h := c16Goid()
 		s.mu.Lock()
 		if s.dead {
 			s.late++
 			s.mu.Unlock()
 			return
 		}
-		b := &c16Batch{ids: append([]int(nil), ids...), start: s.tick(), tstart: now(), harness: s.harness[c16Goid()]}
+		b := &c16Batch{ids: append([]int(nil), ids...), start: s.tick(), tstart: now(), harness: s.harness[h]}
 		k := s.ncb
 		s.ncb++
 		s.batches = append(s.batches, b)
 		s.mu.Unlock()
 		if len(c.Lat) > 0 {
 			if l := c.Lat[k%len(c.Lat)]; l > 0 {
-				time.Sleep(time.Duration(l) * U)
+				if par {
+					for i := 0; i < l*4; i++ {
+						runtime.Gosched()
+					}
+				} else {
+					time.Sleep(time.Duration(l) * U)
+				}
 			}
 		}
 		s.mu.Lock()
@@ -217,24 +270,8 @@ func c16Run(c c16Case, s *c16State) (fail string) {
 		s.mu.Unlock()
 	}
 	sub := c16New(c, exec)
-	gate := newC16Gate()
+	gate := newC16Gate(!par)
 
-	ng := 0
-	at := make([]time.Duration, len(c.Ev))
-	var acc time.Duration
-	maxLat := 0
-	for _, l := range c.Lat {
-		if l > maxLat {
-			maxLat = l
-		}
-	}
-	for i, e := range c.Ev {
-		acc += time.Duration(e.Gap) * U
-		at[i] = acc
-		if e.G+1 > ng {
-			ng = e.G + 1
-		}
-	}
 	s.ops = make([]c16Op, len(c.Ev), len(c.Ev)+1)
 	for i, e := range c.Ev {
 		s.ops[i] = c16Op{ev: i, kind: e.K, g: e.G}
@@ -263,49 +300,137 @@ func c16Run(c c16Case, s *c16State) (fail string) {
 		op.ret, op.tret = s.tick(), now()
 		s.mu.Unlock()
 	}
-	done := make(chan struct{})
-	var wg sync.WaitGroup
-	for g := 0; g < ng; g++ {
-		wg.Add(1)
-		g := g
-		go func() {
-			defer wg.Done()
-			s.mu.Lock()
-			s.harness[c16Goid()] = true
-			s.mu.Unlock()
-			for i, e := range c.Ev {
-				if e.G != g {
-					continue
-				}
-				if d := at[i] - now(); d > 0 {
-					time.Sleep(d)
-				}
-				for y := 0; y < e.Y; y++ {
-					runtime.Gosched()
-				}
-				do(&s.ops[i], e.S)
-			}
-		}()
-	}
-	go func() { wg.Wait(); close(done) }()
-	// every operation returns within a bounded virtual time: the schedule, plus
-	// every callback at the largest latency once for every operation that can be
-	// delayed by it, plus slack.
-	horizon := acc + time.Duration((len(c.Ev)+2)*(len(c.Ev)+2)*maxLat)*U + 100*I
-	select {
-	case <-done:
-	case <-time.After(horizon):
+	stuck := func() string {
 		s.mu.Lock()
-		var stuck []string
+		defer s.mu.Unlock()
+		var st []string
 		for _, o := range s.ops {
 			if o.call != 0 && o.ret == 0 {
-				stuck = append(stuck, fmt.Sprintf("ev %d %s by g%d called at %v", o.ev, o.kind, o.g, o.tcall))
+				st = append(st, fmt.Sprintf("%s(ev %d) by g%d called at %v", o.kind, o.ev, o.g, o.tcall))
 			}
 		}
-		s.mu.Unlock()
-		return fmt.Sprintf("operations did not return within the virtual horizon %v: %v", horizon, stuck)
+		return fmt.Sprint(st) + c16History(s)
 	}
-	// final Wait by the root, then the idle period
+	maxLat := c.maxLat()
+	var horizon time.Duration
+
+	if !par {
+		ng := 0
+		at := make([]time.Duration, len(c.Ev))
+		var acc time.Duration
+		for i, e := range c.Ev {
+			acc += time.Duration(e.Gap) * U
+			at[i] = acc
+			if e.G+1 > ng {
+				ng = e.G + 1
+			}
+		}
+		done := make(chan struct{})
+		var wg sync.WaitGroup
+		for g := 0; g < ng; g++ {
+			wg.Add(1)
+			g := g
+			go func() {
+				defer wg.Done()
+				s.mu.Lock()
+				s.harness[c16Goid()] = true
+				s.mu.Unlock()
+				for i, e := range c.Ev {
+					if e.G != g {
+						continue
+					}
+					if d := at[i] - now(); d > 0 {
+						time.Sleep(d)
+					}
+					for y := 0; y < e.Y; y++ {
+						runtime.Gosched()
+					}
+					do(&s.ops[i], e.S)
+				}
+			}()
+		}
+		go func() { wg.Wait(); close(done) }()
+		// every operation returns within a bounded virtual time: the schedule, plus the
+		// largest latency for every callback that can delay every operation, plus slack.
+		horizon = acc + time.Duration((len(c.Ev)+2)*(len(c.Ev)+2)*maxLat)*U + 100*I
+		select {
+		case <-done:
+		case <-time.After(horizon):
+			return fmt.Sprintf("operations did not return within the virtual horizon %v: %s", horizon, stuck())
+		}
+		if c.Q {
+			// tick trigger: all operations have returned, so nothing is being handed over; the
+			// flusher finishes its current callback, skips at most one tick (after a commanded
+			// batch) and flushes the container at the next one.
+			time.Sleep(6*I + time.Duration(3*maxLat)*U)
+			s.mu.Lock()
+			fin := map[int]bool{}
+			for _, b := range s.batches {
+				if b.end != 0 {
+					for _, id := range b.ids {
+						fin[id] = true
+					}
+				}
+			}
+			for _, o := range s.ops {
+				if o.kind == "add" && !fin[o.ev] && s.liveFail == "" {
+					s.liveFail = fmt.Sprintf("tick trigger: task %d (Add returned at %v) is not executed at %v, 6 intervals + 3 callback latencies after the last operation returned and without any Flush/Wait pending%s",
+						o.ev, o.tret, now(), c16History(s))
+				}
+			}
+			s.mu.Unlock()
+		}
+	} else {
+		// segments separated by idle phases; inside a segment no delays at all
+		horizon = 20 * time.Second // real time
+		seg := [][]int{nil}
+		for i, e := range c.Ev {
+			if e.Gap >= c16IdleGap && i > 0 {
+				seg = append(seg, nil)
+			}
+			seg[len(seg)-1] = append(seg[len(seg)-1], i)
+		}
+		for si, evs := range seg {
+			if si > 0 {
+				time.Sleep(c16IdleRounds*I + U)
+			}
+			byG := map[int][]int{}
+			for _, i := range evs {
+				byG[c.Ev[i].G] = append(byG[c.Ev[i].G], i)
+			}
+			start := make(chan struct{})
+			done := make(chan struct{})
+			var wg sync.WaitGroup
+			for _, mine := range byG {
+				wg.Add(1)
+				mine := mine
+				go func() {
+					defer wg.Done()
+					s.mu.Lock()
+					s.harness[c16Goid()] = true
+					s.mu.Unlock()
+					<-start
+					for _, i := range mine {
+						e := c.Ev[i]
+						if e.Gap < c16IdleGap {
+							for y := 0; y < e.Y+e.Gap; y++ {
+								runtime.Gosched()
+							}
+						}
+						do(&s.ops[i], e.S)
+					}
+				}()
+			}
+			close(start)
+			go func() { wg.Wait(); close(done) }()
+			select {
+			case <-done:
+			case <-time.After(horizon):
+				return fmt.Sprintf("operations did not return within %v of real time: %s", horizon, stuck())
+			}
+		}
+	}
+	// final Wait by the root
 	s.mu.Lock()
 	s.ops = append(s.ops, c16Op{ev: -1, kind: "wait", g: -1})
 	fin := &s.ops[len(s.ops)-1]
@@ -321,9 +446,34 @@ func c16Run(c c16Case, s *c16State) (fail string) {
 	select {
 	case <-finDone:
 	case <-time.After(horizon):
-		return fmt.Sprintf("final Wait did not return within the virtual horizon %v", horizon)
+		return fmt.Sprintf("final Wait did not return within %v: %s", horizon, stuck())
 	}
 	return ""
+}
+
+// c16Settle: idle period after the final Wait. Restarted when a callback ran
+// or ended meanwhile (only possible after a Wait violation), so that the leak
+// verdict at bubble exit always follows c16IdleRounds really idle intervals.
+func c16Settle(c c16Case, s *c16State) {
+	snap := func() (n int) {
+		s.mu.Lock()
+		defer s.mu.Unlock()
+		for _, b := range s.batches {
+			n++
+			if b.end != 0 {
+				n++
+			}
+		}
+		return
+	}
+	for i, n := 0, snap(); i < len(c.Ev)+2; i++ {
+		time.Sleep(c16IdleRounds*c.interval() + c.unit())
+		m := snap()
+		if m == n {
+			return
+		}
+		n = m
+	}
 }
 
 // ---------------------------------------------------------------- oracle
@@ -334,46 +484,57 @@ type c16Result struct {
 	nontrivial  bool
 }
 
-// c16Check judges the recorded history. phase "wait": right after the final
-// Wait; "exit": after the idle period (only exactly-once is re-checked).
+func (c c16Case) atThreshold(ids []int) bool {
+	switch c.Kind {
+	case "bulk":
+		return len(ids) == c.Max
+	case "chunk":
+		sum := 0
+		for _, id := range ids {
+			sum += c.Ev[id].S
+		}
+		return sum >= c.Max
+	default:
+		return c.Max > 0 && len(ids) == c.Max
+	}
+}
+
+// c16Check judges the complete history (called after the idle period).
 func c16Check(c c16Case, s *c16State, res *c16Result) {
 	I := c.interval()
 	cl := res.classes
 	failf := func(format string, a ...any) {
-		if res.fail == "" {
-			res.fail = fmt.Sprintf(format, a...)
+		if res.fail == "" || res.known != "" {
+			res.fail, res.known = fmt.Sprintf(format, a...), ""
 		}
 	}
-	size := map[int]int{}
 	added := map[int]*c16Op{}
 	for i := range s.ops {
 		o := &s.ops[i]
 		if o.kind == "add" && o.call != 0 {
 			added[o.ev] = o
-			size[o.ev] = c.Ev[o.ev].S
 		}
 	}
 	// 1. exactly once
 	where := map[int]*c16Batch{}
-	pos := map[int]int{}
 	for bi, b := range s.batches {
 		if b.end == 0 {
-			failf("callback %d %v never finished", bi, b.ids)
+			failf("callback %d %v never returned%s", bi, b.ids, c16History(s))
 		}
-		for p, id := range b.ids {
+		for _, id := range b.ids {
 			if _, ok := added[id]; !ok {
 				failf("task %d executed (batch %d %v) but never added", id, bi, b.ids)
 				continue
 			}
 			if prev, dup := where[id]; dup {
-				failf("task %d executed twice: batches %v and %v", id, prev.ids, b.ids)
+				failf("task %d executed twice: batches %v and %v%s", id, prev.ids, b.ids, c16History(s))
 			}
-			where[id], pos[id] = b, p
+			where[id] = b
 		}
 	}
 	for id, o := range added {
 		if _, ok := where[id]; !ok && o.ret != 0 {
-			failf("task %d (ev %d, Add returned at %v) was never executed; batches: %s", id, o.ev, o.tret, c16Batches(s))
+			failf("task %d (ev %d, Add returned at %v) was never executed, not even %d idle intervals after the final Wait%s", id, o.ev, o.tret, c16IdleRounds, c16History(s))
 		}
 	}
 	if res.fail != "" {
@@ -385,21 +546,24 @@ func c16Check(c c16Case, s *c16State, res *c16Result) {
 			for _, y := range b.ids[p+1:] {
 				// y is behind x although Add(y) had returned before Add(x) was called
 				if added[y].ret != 0 && added[y].ret < added[x].call {
-					failf("batch %d %v: task %d precedes task %d, but Add(%d) returned before Add(%d) was called", bi, b.ids, x, y, y, x)
+					failf("batch %d %v: task %d precedes task %d, but Add(%d) returned before Add(%d) was called%s", bi, b.ids, x, y, y, x, c16History(s))
 				}
 			}
 		}
 		for _, x := range b.ids {
+			if added[x].ret == 0 {
+				continue
+			}
 			for _, z := range b.ids {
-				if x == z {
+				if x == z || added[z].call < added[x].ret {
 					continue
 				}
 				for y, oy := range added {
 					if where[y] == b || oy.ret == 0 {
 						continue
 					}
-					if added[x].ret != 0 && added[x].ret < oy.call && oy.ret < added[z].call {
-						failf("batch %d %v holds tasks %d and %d but not task %d added strictly between them (it is in %v)", bi, b.ids, x, z, y, where[y].ids)
+					if added[x].ret < oy.call && oy.ret < added[z].call {
+						failf("batch %d %v holds tasks %d and %d but not task %d, which was added strictly between them (it is in %v)%s", bi, b.ids, x, z, y, where[y].ids, c16History(s))
 					}
 				}
 			}
@@ -409,44 +573,39 @@ func c16Check(c c16Case, s *c16State, res *c16Result) {
 			if len(b.ids) > c.Max {
 				failf("bulk batch %d %v has %d tasks > maxTasks %d", bi, b.ids, len(b.ids), c.Max)
 			}
-			if len(b.ids) == c.Max {
-				cl["batch-at-threshold"] = true
-			}
 		case "chunk":
 			sum := 0
 			for _, id := range b.ids {
-				sum += size[id]
+				sum += c.Ev[id].S
 			}
 			if n := len(b.ids); n > 0 {
-				last := size[b.ids[n-1]]
+				last := c.Ev[b.ids[n-1]].S
 				if sum-last >= c.Max {
 					failf("chunk batch %d %v has %d bytes, limit %d, last task %d bytes: exceeds the limit by %d >= last task", bi, b.ids, sum, c.Max, last, sum-c.Max)
-				}
-				if sum >= c.Max {
-					cl["batch-at-threshold"] = true
 				}
 				if sum > c.Max {
 					cl["chunk-over-limit"] = true
 				}
 			}
-		default:
-			if c.Max > 0 && len(b.ids) == c.Max {
-				cl["batch-at-threshold"] = true
-			}
+		}
+		if c.atThreshold(b.ids) {
+			cl["batch-at-threshold"] = true
 		}
 		if len(b.ids) == 0 {
 			cl["empty-batch"] = true
 		}
 		if b.harness {
 			cl["exec-by-flush-or-wait"] = true
+		} else if c.atThreshold(b.ids) {
+			cl["exec-by-flusher-threshold"] = true
 		} else {
-			cl["exec-by-flusher"] = true
+			cl["exec-by-flusher-tick"] = true
 		}
 		if b.tend > b.tstart {
 			cl["latency"] = true
 		}
 	}
-	// 5. Wait
+	// 5. Wait returns only after every task added before it has finished executing
 	for i := range s.ops {
 		w := &s.ops[i]
 		if w.kind != "wait" || w.call == 0 || w.ret == 0 {
@@ -460,23 +619,27 @@ func c16Check(c c16Case, s *c16State, res *c16Result) {
 				continue
 			}
 			b := where[id]
-			if b.end != 0 && b.end < w.ret {
+			if b.end < w.ret {
 				continue
 			}
-			// task id was added before Wait was called and is not finished at Wait's return
-			msg := fmt.Sprintf("Wait (ev %d, g%d) called at %v returned at %v, but task %d (Add returned at %v) finished executing only at %v in batch %v [started %v]",
-				w.ev, w.g, w.tcall, w.tret, id, o.tret, b.tend, b.ids, b.tstart) + c16History(s)
-			if k := c16KnownHandover(c, s, w, b, added, size); k != "" {
+			state := "finished executing only at"
+			if b.start > w.ret {
+				state = "started executing only at " + b.tstart.String() + " and finished at"
+			}
+			msg := fmt.Sprintf("Wait (ev %d, g%d) called at %v returned at %v, but task %d (its Add had returned at %v) %s %v in batch %v%s",
+				w.ev, w.g, w.tcall, w.tret, id, o.tret, state, b.tend, b.ids, c16History(s))
+			if k := c16KnownHandover(c, w, b, added); k != "" {
 				cl["known-handover"] = true
 				if res.fail == "" {
 					res.fail, res.known = msg, k
 				}
 				continue
 			}
-			if res.fail == "" || res.known != "" {
-				res.fail, res.known = msg, ""
-			}
+			failf("%s", msg)
 		}
+	}
+	if s.liveFail != "" {
+		failf("%s", s.liveFail)
 	}
 	// classes + non-trivial rule
 	var firstAdd time.Duration = -1
@@ -532,46 +695,30 @@ func c16Check(c c16Case, s *c16State, res *c16Result) {
 			res.nontrivial = true
 		}
 	}
+	if c.Q {
+		cl["tick-only-quiesce"] = true
+	}
 }
 
 // c16KnownHandover characterises the open finding "handover" (FINDINGS.md): the
 // unfinished task sits in a batch that a threshold-reaching Add took out of the
 // container (batch exactly at the threshold, executed by the background flusher,
-// closing Add called before Wait was called) and that the flusher had not yet
-// received when Wait returned (the execution starts after Wait's return): the
-// batch was in the hand-over (commander channel / blocked adder) during the
-// whole Wait and is not counted in the WaitGroup there. A batch that was
-// already being executed when Wait returned is NOT matched.
-func c16KnownHandover(c c16Case, s *c16State, w *c16Op, b *c16Batch, added map[int]*c16Op, size map[int]int) string {
-	if b.harness || len(b.ids) == 0 {
+// closing Add called before Wait returned, i.e. before or while Wait ran) and
+// that the flusher had not yet received when Wait returned (its execution
+// starts after Wait's return): the batch was in the hand-over (commander
+// channel / blocked adder) when Wait looked at the container and at the
+// WaitGroup, and it is counted in neither. A batch that was already being
+// executed when Wait returned, a batch below the threshold and a batch executed
+// by a Flush/Wait caller are NOT matched.
+func c16KnownHandover(c c16Case, w *c16Op, b *c16Batch, added map[int]*c16Op) string {
+	if b.harness || len(b.ids) == 0 || !c.atThreshold(b.ids) {
 		return ""
 	}
 	last := added[b.ids[len(b.ids)-1]]
-	atThreshold := false
-	switch c.Kind {
-	case "bulk":
-		atThreshold = len(b.ids) == c.Max
-	case "chunk":
-		sum := 0
-		for _, id := range b.ids {
-			sum += size[id]
-		}
-		atThreshold = sum >= c.Max
-	default:
-		atThreshold = c.Max > 0 && len(b.ids) == c.Max
-	}
-	if atThreshold && last.call < w.call && b.start > w.ret {
+	if last.call < w.ret && b.start > w.ret {
 		return "handover"
 	}
 	return ""
-}
-
-func c16Batches(s *c16State) string {
-	var sb bytes.Buffer
-	for _, b := range s.batches {
-		fmt.Fprintf(&sb, "%v@%v..%v ", b.ids, b.tstart, b.tend)
-	}
-	return sb.String()
 }
 
 // c16History renders the recorded history ordered by the logical clock.
@@ -601,81 +748,127 @@ func c16History(s *c16State) string {
 	}
 	sort.Slice(ls, func(i, j int) bool { return ls[i].c < ls[j].c })
 	var sb bytes.Buffer
-	for _, l := range ls {
+	sb.WriteString("\n   history:")
+	for i, l := range ls {
+		if i == 120 {
+			sb.WriteString("\n    ...")
+			break
+		}
 		sb.WriteString("\n    " + l.s)
 	}
 	return sb.String()
 }
 
-// ---------------------------------------------------------------- interpreter
+// ---------------------------------------------------------------- interpreters
 
-const c16Watchdog = 30 * time.Second // real time; a case needs well under a millisecond
+var c16Watchdog = 20 * time.Second // real time; a case needs about a millisecond
 
-func c16Interp(t *testing.T, c c16Case) (v kit.Verdict) {
-	res := &c16Result{classes: map[string]bool{c.Kind: true}}
-	s := &c16State{}
-	var exitFail string
-	bubbleDone := make(chan kit.BubbleResult, 1)
-	go func() {
-		bubbleDone <- kit.Bubble(t, func() {
-			if f := c16Run(c, s); f != "" {
-				res.fail = f
-				s.mu.Lock()
-				s.dead = true
-				s.mu.Unlock()
-				return
-			}
-			s.mu.Lock()
-			c16Check(c, s, res)
-			nb := len(s.batches)
-			s.mu.Unlock()
-			// idle period: nothing more may be executed, the flusher must retire
-			time.Sleep(c16IdleRounds*c.interval() + c.unit())
-			s.mu.Lock()
-			if len(s.batches) != nb && exitFail == "" {
-				exitFail = fmt.Sprintf("callbacks ran during the idle period after the final Wait: %s", c16Batches(s))
-			}
-			s.dead = true
-			s.mu.Unlock()
-		})
-	}()
-	var br kit.BubbleResult
-	select {
-	case br = <-bubbleDone:
-	case <-time.After(c16Watchdog):
-		// real-time watchdog: a goroutine is blocked on a mutex for ever (not a durable block, so
-		// synctest cannot report it) or the bubble spins through virtual time
-		v.Fail = fmt.Sprintf("case did not finish within %v of real time (goroutine blocked on a sync.Mutex for ever, or endless virtual-time loop)", c16Watchdog)
-		v.Classes = []string{"watchdog"}
-		return v
-	}
+func c16Verdict(c c16Case, s *c16State, res *c16Result) (v kit.Verdict) {
 	for k := range res.classes {
 		v.Classes = append(v.Classes, k)
 	}
 	sort.Strings(v.Classes)
 	v.NonTrivial = res.nontrivial
-	switch {
-	case res.fail != "":
-		v.Fail, v.Known = res.fail, res.known
-	case exitFail != "":
-		v.Fail = exitFail
-	case br.Hang:
-		v.Fail = "hang: every goroutine of the bubble is blocked for ever: " + br.Raw
-	case br.Leak:
-		v.Fail = fmt.Sprintf("leak: %d idle intervals after the final Wait a goroutine (background flusher) is still alive at bubble exit", c16IdleRounds)
-	case br.Panic != "":
-		v.Fail = "panic: " + br.Panic
+	v.Fail, v.Known = res.fail, res.known
+	return v
+}
+
+// c16Interp: one fresh bubble per case.
+func c16Interp(t *testing.T, c c16Case) (v kit.Verdict) {
+	res := &c16Result{classes: map[string]bool{c.Kind: true}}
+	s := &c16State{}
+	bubbleDone := make(chan kit.BubbleResult, 1)
+	go func() {
+		returned := false
+		defer func() {
+			if !returned { // runtime.Goexit: the synctest sub-test failed (race report, FailNow)
+				bubbleDone <- kit.BubbleResult{Panic: "the synctest sub-test was aborted (data race reported by the race detector, see the log)"}
+			}
+		}()
+		r := kit.Bubble(t, func() {
+			defer func() {
+				s.mu.Lock()
+				s.dead = true
+				s.mu.Unlock()
+			}()
+			if f := c16Run(c, s, false); f != "" {
+				res.fail = f
+				return
+			}
+			c16Settle(c, s)
+			s.mu.Lock()
+			c16Check(c, s, res)
+			s.mu.Unlock()
+		})
+		returned = true
+		bubbleDone <- r
+	}()
+	var br kit.BubbleResult
+	select {
+	case br = <-bubbleDone:
+	case <-time.After(c16Watchdog):
+		// a goroutine is blocked on a mutex for ever (not a durable block, so synctest
+		// cannot report it) or the bubble spins through virtual time
+		c16Watchdog = 3 * time.Second // shrinking: do not wait as long again
+		return kit.Verdict{Classes: []string{"watchdog"},
+			Fail: "case did not finish within 20 s of real time: a goroutine stays blocked on a sync.Mutex for ever (synctest cannot see that) or virtual time runs away"}
 	}
-	if v.Fail != "" && v.Known == "" && s.late > 0 {
-		v.Fail += fmt.Sprintf(" (%d late callbacks)", s.late)
+	v = c16Verdict(c, s, res)
+	if v.Fail == "" || v.Known != "" {
+		switch {
+		case br.Hang:
+			v.Fail, v.Known = "hang: every goroutine of the bubble is blocked for ever: "+br.Raw, ""
+		case br.Leak:
+			v.Fail, v.Known = fmt.Sprintf("leak: %d idle intervals after the final Wait a goroutine (the background flusher) is still alive at bubble exit", c16IdleRounds), ""
+		case br.Panic != "":
+			v.Fail, v.Known = "panic: "+br.Panic, ""
+		}
 	}
 	return v
 }
 
-// ---------------------------------------------------------------- generator
+var c16BaseGoroutines int
 
-func c16Gen(rt *rapid.T) c16Case {
-	c := c16Case{}
+// c16InterpPar: real clock, real parallelism, no bubble.
+func c16InterpPar(t *testing.T, c c16Case) (v kit.Verdict) {
+	res := &c16Result{classes: map[string]bool{c.Kind: true}}
+	s := &c16State{}
+	settle := func() bool { // wait until only the test's own goroutines are left
+		for i := 0; i < 5000; i++ {
+			if runtime.NumGoroutine() <= c16BaseGoroutines {
+				return true
+			}
+			time.Sleep(2 * time.Millisecond)
+		}
+		return false
+	}
+	strong := c.Q && settle()
+	if f := c16Run(c, s, true); f != "" {
+		return kit.Verdict{Fail: f, Classes: []string{"stuck"}}
+	}
+	if strong {
+		res.classes["flusher-exit-checked"] = true
+		if !settle() {
+			buf := make([]byte, 1<<16)
+			buf = buf[:runtime.Stack(buf, true)]
+			res.fail = fmt.Sprintf("leak: 10 s (real time, interval %v) after the final Wait %d goroutines are alive, %d before the case:\n%s",
+				c.interval(), runtime.NumGoroutine(), c16BaseGoroutines, buf)
+		}
+	} else {
+		time.Sleep(c.interval())
+	}
+	s.mu.Lock()
+	s.dead = true
+	if res.fail == "" {
+		c16Check(c, s, res)
+	}
+	s.mu.Unlock()
+	return c16Verdict(c, s, res)
+}
+
+// ---------------------------------------------------------------- generators
+
+func c16GenKind(rt *rapid.T, c *c16Case) {
 	c.Kind = rapid.SampledFrom([]string{"bulk", "bulk", "chunk", "chunk", "periodical"}).Draw(rt, "kind")
 	switch c.Kind {
 	case "bulk":
@@ -685,6 +878,11 @@ func c16Gen(rt *rapid.T) c16Case {
 	default:
 		c.Max = rapid.IntRange(0, 4).Draw(rt, "max")
 	}
+}
+
+func c16Gen(rt *rapid.T) c16Case {
+	c := c16Case{}
+	c16GenKind(rt, &c)
 	c.IvMs = rapid.SampledFrom([]int{10, 50, 250, 1000}).Draw(rt, "iv")
 	ng := rapid.IntRange(1, 4).Draw(rt, "ng")
 	n := rapid.IntRange(1, 24).Draw(rt, "nev")
@@ -719,12 +917,165 @@ func c16Gen(rt *rapid.T) c16Case {
 	for i := 0; i < nl; i++ {
 		c.Lat = append(c.Lat, rapid.SampledFrom([]int{0, 0, 1, 2, 3, 5, 8, 25}).Draw(rt, "lat"))
 	}
+	c.Q = rapid.IntRange(0, 2).Draw(rt, "q") == 0
 	return c
 }
 
+func c16GenPar(rt *rapid.T) c16Case {
+	c := c16Case{}
+	c16GenKind(rt, &c)
+	c.IvMs = rapid.SampledFrom([]int{1, 1, 2}).Draw(rt, "iv")
+	ng := rapid.IntRange(2, 6).Draw(rt, "ng")
+	n := rapid.IntRange(2, 60).Draw(rt, "nev")
+	idles := 0
+	for i := 0; i < n; i++ {
+		e := c16Ev{G: rapid.IntRange(0, ng-1).Draw(rt, "g")}
+		e.K = rapid.SampledFrom([]string{"add", "add", "add", "add", "add", "add", "add", "add", "flush", "wait"}).Draw(rt, "k")
+		switch g := rapid.IntRange(0, 39).Draw(rt, "gapclass"); {
+		case g < 30:
+		case g < 39:
+			e.Gap = rapid.IntRange(1, 3).Draw(rt, "gap") // Gosched calls
+		default:
+			if idles < 1 && i > 0 {
+				e.Gap = c16IdleGap // idle phase of 12 intervals for the whole case
+				idles++
+			}
+		}
+		if e.K == "add" && c.Kind == "chunk" {
+			e.S = rapid.IntRange(0, 50).Draw(rt, "size")
+		}
+		c.Ev = append(c.Ev, e)
+	}
+	nl := rapid.IntRange(0, 3).Draw(rt, "nlat")
+	for i := 0; i < nl; i++ {
+		c.Lat = append(c.Lat, rapid.SampledFrom([]int{0, 0, 1, 3, 10}).Draw(rt, "lat"))
+	}
+	c.Q = rapid.IntRange(0, 11).Draw(rt, "q") == 0
+	return c
+}
+
+// c16Enumerate: small-scope enumeration. Two adders, 1..maxAdds adds in total
+// (at most 3 per adder) at instants of the grid {0, I/2, I, 3I/2}; optionally one
+// Flush or Wait by adder 0 or by a third goroutine at a grid instant;
+// optionally an idle gap of 12 intervals before one of the adds (after the
+// first); bulk executor with the given maxTasks values; the given latency
+// patterns; with and without the tick-only quiesce.
+func c16Enumerate(maxAdds int, maxes []int, lats [][]int) func(yield func(c16Case) bool) {
+	return func(yield func(c16Case) bool) {
+		type add struct{ g, at int }
+		var adds []add
+		var rec func(n, minAt, minG int) bool
+		emit := func() bool {
+			n := len(adds)
+			per := [2]int{}
+			for _, a := range adds {
+				per[a.g]++
+			}
+			if per[0] > 3 || per[1] > 3 || adds[0].g != 0 { // symmetry: the first add is by adder 0
+				return true
+			}
+			type extra struct {
+				k     string
+				g, at int
+			}
+			extras := []extra{{}}
+			for _, k := range []string{"flush", "wait"} {
+				for _, g := range []int{0, 2} {
+					for at := 0; at < 4; at++ {
+						extras = append(extras, extra{k, g, at})
+					}
+				}
+			}
+			for _, x := range extras {
+				for idle := 0; idle < n; idle++ { // 0: none; k: before add k
+					for _, mx := range maxes {
+						for _, lat := range lats {
+							for _, q := range []bool{false, true} {
+								c := c16Case{Kind: "bulk", Max: mx, IvMs: 10, Lat: lat, Q: q}
+								// merge adds and the extra op by instant (extra after the adds of its instant)
+								type item struct {
+									at int
+									ev c16Ev
+								}
+								var items []item
+								for i, a := range adds {
+									at := a.at
+									if idle > 0 && i >= idle {
+										at += 2 * c16IdleRounds
+									}
+									items = append(items, item{at, c16Ev{G: a.g, K: "add"}})
+								}
+								if x.k != "" {
+									items = append(items, item{x.at, c16Ev{G: x.g, K: x.k}})
+								}
+								sort.SliceStable(items, func(i, j int) bool { return items[i].at < items[j].at })
+								prev := 0
+								for _, it := range items {
+									it.ev.Gap = it.at - prev
+									prev = it.at
+									c.Ev = append(c.Ev, it.ev)
+								}
+								if !yield(c) {
+									return false
+								}
+							}
+						}
+					}
+				}
+			}
+			return true
+		}
+		rec = func(n, minAt, minG int) bool {
+			if len(adds) > 0 && !emit() {
+				return false
+			}
+			if n == 0 {
+				return true
+			}
+			for at := minAt; at < 4; at++ {
+				g0 := 0
+				if at == minAt {
+					g0 = minG
+				}
+				for g := g0; g < 2; g++ {
+					adds = append(adds, add{g, at})
+					ok := rec(n-1, at, g)
+					adds = adds[:len(adds)-1]
+					if !ok {
+						return false
+					}
+				}
+			}
+			return true
+		}
+		rec(maxAdds, 0, 0)
+	}
+}
+
+// ---------------------------------------------------------------- tests
+
 func TestVerif_C16_random(t *testing.T) {
-	// one P: goroutines of a bubble interleave only at blocking points, see verif.json
+	// one P: the goroutines of a bubble interleave only at blocking points (see verif.json level_note)
 	defer runtime.GOMAXPROCS(runtime.GOMAXPROCS(1))
-	kit.Run(t, "C16", "exec-random", kit.Opts{Quick: 3000, Thorough: 480000}, c16Gen,
+	kit.Run(t, "C16", "exec-random", kit.Opts{Quick: 6000, Thorough: 400000}, c16Gen,
 		func(c c16Case) kit.Verdict { return c16Interp(t, c) })
+}
+
+func TestVerif_C16_smallscope(t *testing.T) {
+	defer runtime.GOMAXPROCS(runtime.GOMAXPROCS(1))
+	maxAdds, maxes, lats := 2, []int{2}, [][]int{{3}}
+	if kit.Thorough() {
+		maxAdds, maxes, lats = 4, []int{1, 2}, [][]int{nil, {3}}
+	}
+	kit.Enumerate(t, "C16", "exec-small-scope", c16Enumerate(maxAdds, maxes, lats),
+		func(c c16Case) kit.Verdict { return c16Interp(t, c) })
+}
+
+func TestVerif_C16_parallel(t *testing.T) {
+	if runtime.GOMAXPROCS(0) < 4 {
+		defer runtime.GOMAXPROCS(runtime.GOMAXPROCS(4))
+	}
+	c16BaseGoroutines = runtime.NumGoroutine()
+	kit.Run(t, "C16", "exec-parallel", kit.Opts{Quick: 1500, Thorough: 40000}, c16GenPar,
+		func(c c16Case) kit.Verdict { return c16InterpPar(t, c) })
 }
